@@ -665,7 +665,7 @@ fn cli_cases(out: &mut Out, rng: &mut Rng, cli: &Path, n: usize, work: &Path, us
         let dir = work.join(format!("p{i}"));
         std::fs::create_dir_all(&dir).unwrap();
         std::fs::write(dir.join("schema.graphql"), &src).unwrap();
-        let cfg = format!("schema: ./schema.graphql\nextensions:\n  nitrogql:\n{}    generate:\n      serverGraphqlOutput: ./out/schema.mjs\n",
+        let cfg = format!("schema: ./schema.graphql\nextensions:\n  nitrogql:\n{}    generate:\n      schemaOutput: ./out/schema.d.ts\n      serverGraphqlOutput: ./out/schema.mjs\n      type:\n        scalarTypes:\n          Extra: string\n          Date: string\n          JSON: string\n          Url: string\n",
                           if plugin { "    plugins:\n      - \"nitrogql:model-plugin\"\n" } else { "" });
         std::fs::write(dir.join("graphql.config.yaml"), cfg).unwrap();
         let st = Command::new(cli).arg("generate").current_dir(&dir).output();
@@ -685,11 +685,18 @@ fn cli_cases(out: &mut Out, rng: &mut Rng, cli: &Path, n: usize, work: &Path, us
         // without node the exported value is not observed: the case then only ties the module text
         let re = v.as_ref().and_then(|v| catch(AssertUnwindSafe(|| parse_type_system_document(v).map(|d| ast_coq::tsdoc_ext(&d)).ok())).ok().flatten());
         emitted += 1;
+        // the strings of the stripped schema decide the known-finding classes, as for the server stream
+        let mut stripped = cli_builtins::remove_builtins(&doc);
+        if *plugin { if let Some(next) = (ModelPlugin {}).transform_document_for_runtime_server(&stripped) { stripped = next; } }
+        let mut st = Strs::default();
+        st.tsdoc(&stripped);
+        let mut feat = features(&st.0, &rec_of(&stripped));
+        feat["server"] = server_features(&doc, *plugin);
         out.distinct.insert(format!("module|{plugin}|{src}"));
         out.cases.push(
             format!("CModule {} {} {} {} {} {}", coq_bool(*plugin), compact(&ast_coq::tsdoc(&doc), true), compact(&coq_text(&text), false), coq_bool(values.is_some()),
                     coq_opt(&v, |x| compact(&coq_text(x), false)), match &re { Some(t) => format!("(ReDiff {})", compact(t, true)), None => "ReNone".into() }),
-            json!({"kind":"module","model_plugin":plugin,"source":src,"module_text":text,"node_value":v,"node_used":values.is_some(),"features":{"server": server_features(&doc, *plugin)}}));
+            json!({"kind":"module","model_plugin":plugin,"source":src,"module_text":text,"node_value":v,"node_used":values.is_some(),"features":feat}));
     }
     json!({"cli_projects": n, "cli_failed": failed, "module_cases": emitted, "node_used": values.is_some()})
 }
